@@ -6,7 +6,7 @@ namespace ImathVerif.Gen
 open ImathVerif
 
 /-- extracted from the C++ template at T = Sym; 4 path(s) -/
-def LineAlgo.closestPoints {α : Type} [Add α] [Sub α] [Mul α] [Div α] [Neg α] [LT α] [DecidableLT α] [OfNat α 0] [OfNat α 1] (tmax : α) (l1 : Line3 α) (l2 : Line3 α) : (Bool × (V3 α) × (V3 α)) :=
+def LineAlgo.closestPoints {α : Type} [Add α] [Sub α] [Mul α] [Div α] [Neg α] [LT α] [LE α] [DecidableLT α] [DecidableLE α] [OfNat α 0] [OfNat α 1] (tmax : α) (l1 : Line3 α) (l2 : Line3 α) : (Bool × (V3 α) × (V3 α)) :=
   let t56 := (l1.pos.z - l2.pos.z)
   let t57 := (l1.pos.y - l2.pos.y)
   let t58 := (l1.pos.x - l2.pos.x)
@@ -32,7 +32,7 @@ def LineAlgo.closestPoints {α : Type} [Add α] [Sub α] [Mul α] [Div α] [Neg 
     (true, ⟨t148, t147, t146⟩, ⟨t155, t154, t153⟩)
   else
     if t157 < t156 then
-      if t158 < t156 then
+      if t158 ≤ t156 then
         (true, ⟨t148, t147, t146⟩, ⟨t155, t154, t153⟩)
       else
         (false, ⟨(0 : α), (0 : α), (0 : α)⟩, ⟨(0 : α), (0 : α), (0 : α)⟩)
